@@ -22,6 +22,7 @@ mod c05;
 mod c03;
 mod c06;
 mod c19;
+mod c20;
 
 use framework::*;
 
@@ -35,6 +36,7 @@ fn check_by_id(id: &str) -> Option<Box<dyn Check>> {
         "C03" => Some(Box::new(c03::C03)),
         "C06" => Some(Box::new(c06::C06)),
         "C19" => Some(Box::new(c19::C19)),
+        "C20" => Some(Box::new(c20::C20)),
         _ => None,
     }
 }
